@@ -24,6 +24,14 @@ pub struct GroupMode {
     pub output_file: bool,
     pub links: (bool, bool, bool),
     pub threads: Vec<String>,
+    /// environment of the run: 0 private absolute XDG_CACHE_HOME, 1 XDG_CACHE_HOME unset (HOME/.cache),
+    /// 2 XDG_CACHE_HOME empty, 3 XDG_CACHE_HOME relative ("cache"); the XDG spec says empty and
+    /// relative values are to be ignored
+    #[serde(default)]
+    pub env_mode: u8,
+    /// run with the first root as working directory (roots spelled `.` and `../rN`)
+    #[serde(default)]
+    pub cwd_in_root: bool,
 }
 
 #[derive(Clone, Debug, Serialize, Deserialize)]
@@ -58,9 +66,11 @@ fn group_strategy() -> BoxedStrategy<C07Case> {
                 prop::bool::weighted(0.3),
                 (any::<bool>(), any::<bool>(), any::<bool>()),
                 proptest::collection::vec((0u16..u16::MAX).prop_map(|i| THREAD_SPECS[pick(i, THREAD_SPECS.len())].to_string()), 0..2),
+                prop_oneof![5 => Just(0u8), 1 => Just(1u8), 1 => Just(2u8), 2 => Just(3u8)],
+                prop::bool::weighted(0.35),
             )
-                .prop_map(move |(tree, prog, io, no_copy, cache, output_file, links, threads)| {
-                    C07Case::Group(GroupMode { tree, roots, prog, io, no_copy, cache, output_file, links, threads })
+                .prop_map(move |(tree, prog, io, no_copy, cache, output_file, links, threads, env_mode, cwd_in_root)| {
+                    C07Case::Group(GroupMode { tree, roots, prog, io, no_copy, cache, output_file, links, threads, env_mode, cwd_in_root })
                 })
         })
         .boxed()
@@ -189,8 +199,27 @@ fn run_group_mode(g: &GroupMode, n: u64) -> Verdict {
     if g.links.2 {
         args.push("-H".into());
     }
-    args.extend(root_args(g.roots));
-    let run = with_shim(Run::fclones(&cd).args(&args), &cd);
+    let mut run = Run::fclones(&cd);
+    if g.cwd_in_root && tree.join(ROOT_NAMES[0]).is_dir() {
+        run = run.cwd(tree.join(ROOT_NAMES[0]));
+        args.push(".".into());
+        for i in 1..g.roots.max(1) {
+            args.push(format!("../{}", ROOT_NAMES[i % ROOT_NAMES.len()]).into());
+        }
+        sig.push("cwd-inside-tree".into());
+    } else {
+        args.extend(root_args(g.roots));
+    }
+    match g.env_mode % 4 {
+        1 => run = run.unset_env("XDG_CACHE_HOME"),
+        2 => run = run.env("XDG_CACHE_HOME", ""),
+        3 => run = run.env("XDG_CACHE_HOME", "cache"),
+        _ => {}
+    }
+    if g.env_mode % 4 != 0 {
+        sig.push(format!("cache-env-{}", g.env_mode % 4));
+    }
+    let run = with_shim(run.args(&args), &cd);
     let cmdline = run.cmdline();
     let out = run.run();
     finish_case(&cd, &before, &out, &cmdline, sig, g.prog.is_some() && g.io % 5 != 0)
@@ -282,7 +311,7 @@ pub fn check(tier: Tier) -> i32 {
     cleanup_process_scratch();
     ctx.finish(
         "exploration",
-        "proptest-generated trees (hostile names, hard links, symlinks) x `group` with every transform I/O mode (pipe, $IN, $OUT, $IN+$OUT, --in-place with $IN) x --no-copy x helper programs that read all / part / none of their input, fail before or after reading, or never open $OUT (no helper writes to $IN) x --cache x -o outside the tree x -S/-L/-H; and all five dedupe operations with --dry-run, arbitrary options and -o. Oracle: (1) strict inventory equality before/after (paths, types, bytes, inode numbers, link counts, symlink targets, mtimes, modes); (2) the LD_PRELOAD trace of fclones and all its children contains no mutating libc call (open for write/create, write, rename, link, symlink, unlink, mkdir, mkfifo, truncate, utimes, chmod, clone ioctl) on a path below the scanned tree; (3) no fclones-* entry remains in the private TMPDIR. Non-trivial = a transform mode other than the plain pipe, or a dry run whose script is non-empty.",
+        "proptest-generated trees (hostile names, hard links, symlinks) x `group` with every transform I/O mode (pipe, $IN, $OUT, $IN+$OUT, --in-place with $IN) x --no-copy x helper programs that read all / part / none of their input, fail before or after reading, or never open $OUT (no helper writes to $IN) x --cache x -o outside the tree x -S/-L/-H x XDG_CACHE_HOME private / unset / empty / relative x working directory outside or inside the scanned tree; and all five dedupe operations with --dry-run, arbitrary options and -o. Oracle: (1) strict inventory equality before/after (paths, types, bytes, inode numbers, link counts, symlink targets, mtimes, modes); (2) the LD_PRELOAD trace of fclones and all its children contains no mutating libc call (open for write/create, write, rename, link, symlink, unlink, mkdir, mkfifo, truncate, utimes, chmod, clone ioctl) on a path below the scanned tree; (3) no fclones-* entry remains in the private TMPDIR. Non-trivial = a transform mode other than the plain pipe, or a dry run whose script is non-empty.",
         &["mutations are observed at libc level (the binary imports all file operations dynamically)", "helper programs never write to $IN, so any change of an input is fclones' own"],
     )
 }
